@@ -3,7 +3,8 @@
 From Coq Require Import List NArith ZArith Lia Bool.
 From Coq Require Import ZifyBool ZifyNat ZifyN.
 From PB Require Import Base.PBytes Json.JsonUtf8 Json.JsonGrammar Json.JsonNumModel Json.JsonNumP
-  Json.JsonLexModel Json.JsonStrP Json.JsonLexP Json.JsonEncModel Json.JsonEncP Json.JsonEncSpec.
+  Json.JsonLexModel Json.JsonStrP Json.JsonLexP Json.JsonEncModel Json.JsonEncP Json.JsonStrict Json.JsonEncSpec
+  Json.JsonLexCompleteP.
 Import ListNotations.
 Open Scope N_scope.
 Ltac Zify.zify_post_hook ::= Z.div_mod_to_equations.
@@ -44,6 +45,73 @@ Lemma append_string_rfc s out : append_string s = (out, true) -> rfc_string out.
 Proof.
   unfold append_string, escape_string. destruct (escape_loop (S (length s)) s) as [t ok] eqn:E.
   destruct ok; [|discriminate]. intros [= <-]. exists t. split; auto. eapply escape_loop_jchars; eauto.
+Qed.
+
+(* the escaped form is a strict string that decodes to the input *)
+Lemma escape_loop_schars fuel : forall inp t, escape_loop fuel inp = (t, true) -> schars t inp.
+Proof.
+  induction fuel as [|f IH]; intros inp t; cbn [escape_loop]; [discriminate|].
+  destruct inp as [|b r0]. { intros [= <-]. constructor. }
+  destruct (decode_rune (b :: r0)) as [rn n] eqn:Ed.
+  destruct (is_bad_rune (rn, n)) eqn:Ebad; [discriminate|]. cbn [fst snd].
+  destruct (decode_rune_wf _ _ _ Ed Ebad ltac:(discriminate)) as (Hwf & Hn & Hn1 & Hn2).
+  destruct (escape_loop f (skipn n (b :: r0))) as [t' ok] eqn:Erec.
+  destruct ((rn <? 32) || is b c_quote || is b c_bslash) eqn:Esp.
+  - assert (Hone : n = 1%nat).
+    { destruct (Nat.eq_dec n 1); auto. exfalso. assert (128 <= rn) by (apply Hn2; lia).
+      apply orb_true_iff in Esp as [Esp|Esp]; [apply orb_true_iff in Esp as [Esp|Esp]|].
+      - lia.
+      - apply is_true in Esp. subst b. cbn in Ed. injection Ed as <- <-. lia.
+      - apply is_true in Esp. subst b. cbn in Ed. injection Ed as <- <-. lia. }
+    subst n. destruct (Hn1 eq_refl) as (b' & rest' & [= <- <-] & Hrn & Hlt). cbn [skipn] in Erec.
+    intros [= <- ->]. specialize (IH _ _ Erec).
+    assert (Hesc : forall e, is_simple_esc e = true -> simple_esc_val e = b -> schars (c_bslash :: [e] ++ t') (b :: r0)).
+    { intros e He <-. cbn [app]. now apply SCesc. }
+    destruct (is b c_quote || is b c_bslash) eqn:Eqb.
+    { apply Hesc. { unfold is_simple_esc. rewrite <- !orb_assoc, orb_assoc, Eqb. reflexivity. }
+      apply orb_true_iff in Eqb as [E|E]; apply is_true in E; subst; reflexivity. }
+    destruct (rn =? 8) eqn:E8. { apply Hesc; [reflexivity|]. apply b2n_inj. cbn. lia. }
+    destruct (rn =? 12) eqn:E12. { apply Hesc; [reflexivity|]. apply b2n_inj. cbn. lia. }
+    destruct (rn =? 10) eqn:E10. { apply Hesc; [reflexivity|]. apply b2n_inj. cbn. lia. }
+    destruct (rn =? 13) eqn:E13. { apply Hesc; [reflexivity|]. apply b2n_inj. cbn. lia. }
+    destruct (rn =? 9) eqn:E9. { apply Hesc; [reflexivity|]. apply b2n_inj. cbn. lia. }
+    apply orb_false_iff in Eqb as [E1 E2]. rewrite E1, E2, !orb_false_r in Esp. cbn [app].
+    assert (Hh : hex4 c_0 c_0 (hex_digit (rn / 16)) (hex_digit (rn mod 16)) = Some rn).
+    { unfold hex4. change (hex_val c_0) with (Some 0). rewrite !hex_val_hex_digit by lia. f_equal. lia. }
+    assert (Hs : is_surrogate rn = false) by (unfold is_surrogate; lia).
+    pose proof (SCuni _ _ _ _ rn t' r0 Hh Hs IH) as H.
+    unfold encode_rune in H. replace (rn <? 128) with true in H by lia. cbn [app] in H.
+    assert (Hb : n2b rn = b) by (rewrite Hrn; apply n2b_b2n). rewrite Hb in H. exact H.
+  - intros [= <- ->]. specialize (IH _ _ Erec). apply orb_false_iff in Esp as [Esp Eb].
+    apply orb_false_iff in Esp as [E32 Eq].
+    rewrite <- (firstn_skipn n (b :: r0)) at 2. apply SCplain; auto.
+    destruct (Nat.eq_dec n 1) as [->|Hne].
+    + destruct (Hn1 eq_refl) as (b' & rest' & [= <- <-] & -> & _). cbn [firstn unescaped].
+      rewrite Eq, Eb. cbn [negb andb]. lia.
+    + destruct n as [|[|n']]; try lia. cbn [firstn]. destruct r0 as [|b1 r']; [cbn [length] in Hn; lia|].
+      destruct n'; reflexivity.
+Qed.
+
+Lemma append_string_sstring s out : append_string s = (out, true) -> sstring out s.
+Proof.
+  unfold append_string, escape_string. destruct (escape_loop (S (length s)) s) as [t ok] eqn:E.
+  destruct ok; [|discriminate]. intros [= <-]. exists t. split; auto. eapply escape_loop_schars; eauto.
+Qed.
+
+Lemma selems_ws q ks w : selems q ks -> ws w -> selems (q ++ w) ks.
+Proof.
+  intros H Hw. destruct H as [w1 v w2 ks H1 Hv H2 | p w1 v w2 ks1 ks2 Hp H1 Hv H2].
+  - replace ((w1 ++ v ++ w2) ++ w) with (w1 ++ v ++ (w2 ++ w)) by app_eq. constructor; auto using ws_app.
+  - replace ((p ++ c_comma :: w1 ++ v ++ w2) ++ w) with (p ++ c_comma :: w1 ++ v ++ (w2 ++ w)) by app_eq.
+    constructor; auto using ws_app.
+Qed.
+Lemma smembers_ws q ks w : smembers q ks -> ws w -> smembers (q ++ w) ks.
+Proof.
+  intros H Hw. destruct H as [w1 k d w2 w3 v w4 ks H1 Hk H2 H3 Hv H4 | p w1 k d w2 w3 v w4 ks1 ks2 Hp H1 Hk H2 H3 Hv H4].
+  - replace ((w1 ++ k ++ w2 ++ c_colon :: w3 ++ v ++ w4) ++ w)
+      with (w1 ++ k ++ w2 ++ c_colon :: w3 ++ v ++ (w4 ++ w)) by app_eq. constructor; auto using ws_app.
+  - replace ((p ++ c_comma :: w1 ++ k ++ w2 ++ c_colon :: w3 ++ v ++ w4) ++ w)
+      with (p ++ c_comma :: w1 ++ k ++ w2 ++ c_colon :: w3 ++ v ++ (w4 ++ w)) by app_eq. constructor; auto using ws_app.
 Qed.
 
 (* ---------- decimal integers are RFC 8259 numbers ---------- *)
@@ -351,15 +419,15 @@ Proof.
 Qed.
 
 (* the calls [cs] write one value whose whitespace-free form is [cv] *)
-Definition emits_value (cs : list ecall) (cv : list byte) : Prop :=
+Definition emits_value (cs : list ecall) (cv : list byte) (ks : list atok) : Prop :=
   forall e, ws (e_indent e) -> ws (e_indents e) ->
-  exists e' s v, enc_calls rnd cs e = (e', true) /\ e_out e' = e_out e ++ s ++ v /\ sep_ok e s /\ jvalue v /\
+  exists e' s v, enc_calls rnd cs e = (e', true) /\ e_out e' = e_out e ++ s ++ v /\ sep_ok e s /\ svalue v ks /\
                  sq v cv /\
                  ends_value (e_last e') = true /\ e_indent e' = e_indent e /\
                  e_indents e' = indents_after_item e /\ ws (e_indents e').
 
-Lemma emits_scalar c bs : (forall e, enc_call rnd c e = (emit bs (prepare_next rnd EKScalar e), true)) ->
-  jvalue bs -> sq bs bs -> emits_value [c] bs.
+Lemma emits_scalar c bs ks : (forall e, enc_call rnd c e = (emit bs (prepare_next rnd EKScalar e), true)) ->
+  svalue bs ks -> sq bs bs -> emits_value [c] bs ks.
 Proof.
   intros Hc Hv Hsq e Hi Hii. destruct (prepare_item EKScalar e eq_refl Hi Hii) as (s & Ho & Hs & Hl & Hin & Hins & Hw).
   exists (emit bs (prepare_next rnd EKScalar e)), s, bs. split; [apply enc_calls_one, Hc|].
@@ -372,16 +440,16 @@ Variable rnd : nat -> bool.
 Notation emits := (emits_value rnd).
 
 (* elements of an array, written from state e1 whose output is base ++ acc *)
-Lemma enc_elems l : Forall (fun t => emits (calls_of_tree t) (compact t)) l ->
-  forall e1 base acc cacc, ws (e_indent e1) -> ws (e_indents e1) -> e_out e1 = base ++ acc -> sq acc cacc ->
-    ((is_open (e_last e1) = true /\ acc = []) \/ (ends_value (e_last e1) = true /\ jelems acc)) ->
+Lemma enc_elems l : Forall (fun t => emits (calls_of_tree t) (compact t) (tree_toks t)) l ->
+  forall e1 base acc cacc kacc, ws (e_indent e1) -> ws (e_indents e1) -> e_out e1 = base ++ acc -> sq acc cacc ->
+    ((is_open (e_last e1) = true /\ acc = [] /\ kacc = []) \/ (ends_value (e_last e1) = true /\ selems acc kacc)) ->
     exists e2 acc', enc_calls rnd (flat_map calls_of_tree l) e1 = (e2, true) /\ e_out e2 = base ++ acc' /\
       e_indent e2 = e_indent e1 /\ ws (e_indents e2) /\
       sq acc' (cacc ++ (if ends_value (e_last e1) then tail_join (map compact l) else join_comma (map compact l))) /\
       ((l = [] /\ e_last e2 = e_last e1 /\ acc' = acc /\ e_indents e2 = e_indents e1) \/
-       (l <> [] /\ ends_value (e_last e2) = true /\ jelems acc' /\ e_indents e2 = indents_after_item e1)).
+       (l <> [] /\ ends_value (e_last e2) = true /\ selems acc' (kacc ++ flat_map tree_toks l) /\ e_indents e2 = indents_after_item e1)).
 Proof.
-  induction 1 as [|x r Hx Hr IH]; intros e1 base acc cacc Hi Hii Ho Hsq Hst.
+  induction 1 as [|x r Hx Hr IH]; intros e1 base acc cacc kacc Hi Hii Ho Hsq Hst.
   - exists e1, acc. cbn [flat_map enc_calls map tail_join join_comma flat_map].
     replace (cacc ++ (if ends_value (e_last e1) then [] else [])) with cacc by (destruct (ends_value (e_last e1)); now rewrite app_nil_r).
     repeat split; auto; apply Hsq.
@@ -390,8 +458,8 @@ Proof.
     pose proof (sep_sq _ _ Hsep) as Hsqs.
     assert (Hsqx : sq accx (cacc ++ (if ends_value (e_last e1) then [c_comma] else []) ++ compact x)).
     { subst accx. apply sq_app; auto. apply sq_app; auto. }
-    assert (Haccx : jelems accx).
-    { subst accx. unfold sep_ok in Hsep. destruct Hst as [[Hop ->] | [Hev Hacc]].
+    assert (Haccx : selems accx (kacc ++ tree_toks x)).
+    { subst accx. unfold sep_ok in Hsep. destruct Hst as [(Hop & -> & ->) | [Hev Hacc]].
       - assert (ends_value (e_last e1) = false) as E by (destruct (e_last e1); try discriminate; reflexivity).
         rewrite E in Hsep. cbn [app]. replace (s ++ v) with (s ++ v ++ []) by now rewrite app_nil_r.
         constructor; auto using ws_nil.
@@ -400,7 +468,7 @@ Proof.
         constructor; auto using ws_nil. }
     rewrite <- Hix in Hi.
     assert (Hoeq : e_out ex = base ++ accx) by (rewrite Hox, Ho; subst accx; now rewrite <- !app_assoc).
-    destruct (IH ex base accx _ Hi Hwx Hoeq Hsqx (or_intror (conj Hlx Haccx)))
+    destruct (IH ex base accx _ _ Hi Hwx Hoeq Hsqx (or_intror (conj Hlx Haccx)))
       as (e2 & acc' & Erun2 & Ho2 & Hi2 & Hw2 & Hsq2 & Hcase).
     exists e2, acc'. split. { cbn [flat_map]. eapply enc_calls_app; eauto. }
     split; auto. split; [congruence|]. split; auto. split.
@@ -410,32 +478,35 @@ Proof.
         repeat first [rewrite <- app_assoc | progress cbn [app]]; exact Hsq2. }
     right. split; [discriminate|].
     destruct Hcase as [(-> & Hl2 & -> & Hii2) | (_ & Hl2 & Hj2 & Hii2)].
-    + rewrite Hl2, Hii2. auto.
-    + repeat split; auto. rewrite Hii2. unfold indents_after_item at 1. rewrite (ends_not_open _ Hlx), Hix.
+    + rewrite Hl2, Hii2. cbn [flat_map]. rewrite app_nil_r. auto.
+    + split; auto. split. { cbn [flat_map]. now rewrite app_assoc. }
+      rewrite Hii2. unfold indents_after_item at 1. rewrite (ends_not_open _ Hlx), Hix.
       destruct (e_indent e1); auto.
 Qed.
 
+Definition member_toks (kv : list byte * jtree) : list atok :=
+  (KName, fst (append_string (fst kv)), false, fst kv) :: tree_toks (snd kv).
 Definition member_compact (kv : list byte * jtree) : list byte :=
   fst (append_string (fst kv)) ++ c_colon :: compact (snd kv).
 
 (* members of an object *)
 Lemma enc_members l :
-  Forall (fun kv => snd (append_string (fst kv)) = true /\ emits (calls_of_tree (snd kv)) (compact (snd kv))) l ->
-  forall e1 base acc cacc, ws (e_indent e1) -> ws (e_indents e1) -> e_out e1 = base ++ acc -> sq acc cacc ->
-    ((is_open (e_last e1) = true /\ acc = []) \/ (ends_value (e_last e1) = true /\ jmembers acc)) ->
+  Forall (fun kv => snd (append_string (fst kv)) = true /\ emits (calls_of_tree (snd kv)) (compact (snd kv)) (tree_toks (snd kv))) l ->
+  forall e1 base acc cacc kacc, ws (e_indent e1) -> ws (e_indents e1) -> e_out e1 = base ++ acc -> sq acc cacc ->
+    ((is_open (e_last e1) = true /\ acc = [] /\ kacc = []) \/ (ends_value (e_last e1) = true /\ smembers acc kacc)) ->
     exists e2 acc', enc_calls rnd (flat_map (fun kv => CName (fst kv) :: calls_of_tree (snd kv)) l) e1 = (e2, true) /\
       e_out e2 = base ++ acc' /\ e_indent e2 = e_indent e1 /\ ws (e_indents e2) /\
       sq acc' (cacc ++ (if ends_value (e_last e1) then tail_join (map member_compact l) else join_comma (map member_compact l))) /\
       ((l = [] /\ e_last e2 = e_last e1 /\ acc' = acc /\ e_indents e2 = e_indents e1) \/
-       (l <> [] /\ ends_value (e_last e2) = true /\ jmembers acc' /\ e_indents e2 = indents_after_item e1)).
+       (l <> [] /\ ends_value (e_last e2) = true /\ smembers acc' (kacc ++ flat_map member_toks l) /\ e_indents e2 = indents_after_item e1)).
 Proof.
-  induction 1 as [|[k x] r [Hk Hx] Hr IH]; intros e1 base acc cacc Hi Hii Ho Hsq Hst.
+  induction 1 as [|[k x] r [Hk Hx] Hr IH]; intros e1 base acc cacc kacc Hi Hii Ho Hsq Hst.
   - exists e1, acc. cbn [flat_map enc_calls map tail_join join_comma flat_map].
     replace (cacc ++ (if ends_value (e_last e1) then [] else [])) with cacc by (destruct (ends_value (e_last e1)); now rewrite app_nil_r).
     repeat split; auto; apply Hsq.
   - cbn [fst snd] in *.
     destruct (append_string k) as [ko okk] eqn:Ek. cbn [snd] in Hk. subst okk.
-    pose proof (append_string_rfc _ _ Ek) as Hkrfc. pose proof (sq_append_string _ _ Ek) as Hksq.
+    pose proof (append_string_sstring _ _ Ek) as Hkrfc. pose proof (sq_append_string _ _ Ek) as Hksq.
     destruct (prepare_item rnd EKName e1 eq_refl Hi Hii) as (s & Hos & Hsep & Hls & Hins & Hiis & Hws).
     set (en := emit (ko ++ [c_colon]) (prepare_next rnd EKName e1)).
     assert (Ecn : enc_call rnd (CName k) e1 = (en, true)) by (cbn [enc_call]; rewrite Ek; reflexivity).
@@ -450,8 +521,8 @@ Proof.
     set (accx := acc ++ s ++ ko ++ [c_colon] ++ s' ++ v).
     assert (Hsqx : sq accx (cacc ++ (if ends_value (e_last e1) then [c_comma] else []) ++ ko ++ [c_colon] ++ [] ++ compact x)).
     { subst accx. repeat apply sq_app; auto. apply sq_plain. reflexivity. }
-    assert (Haccx : jmembers accx).
-    { subst accx. unfold sep_ok in Hsep. destruct Hst as [[Hop ->] | [Hev Hacc]].
+    assert (Haccx : smembers accx (kacc ++ (KName, ko, false, k) :: tree_toks x)).
+    { subst accx. unfold sep_ok in Hsep. destruct Hst as [(Hop & -> & ->) | [Hev Hacc]].
       - assert (ends_value (e_last e1) = false) as E by (destruct (e_last e1); try discriminate; reflexivity).
         rewrite E in Hsep. cbn [app].
         replace (s ++ ko ++ c_colon :: s' ++ v) with (s ++ ko ++ [] ++ c_colon :: s' ++ v ++ []) by now rewrite app_nil_r.
@@ -462,7 +533,7 @@ Proof.
         constructor; auto using ws_nil. }
     rewrite <- Hix in Hi.
     assert (Hoeq : e_out ex = base ++ accx) by (rewrite Hox, Hoen, Ho; subst accx; now rewrite <- !app_assoc).
-    destruct (IH ex base accx _ Hi Hwx Hoeq Hsqx (or_intror (conj Hlx Haccx)))
+    destruct (IH ex base accx _ _ Hi Hwx Hoeq Hsqx (or_intror (conj Hlx Haccx)))
       as (e2 & acc' & Erun2 & Ho2 & Hi2 & Hw2 & Hsq2 & Hcase).
     exists e2, acc'. split.
     { cbn [flat_map fst snd app].
@@ -477,9 +548,11 @@ Proof.
     assert (Hiix' : e_indents ex = indents_after_item e1).
     { rewrite Hiix. unfold indents_after_item at 1. rewrite Hlen, Hien. cbn [is_open]. rewrite Hiien.
       destruct (e_indent e1); auto. }
+    assert (Hmt : member_toks (k, x) = (KName, ko, false, k) :: tree_toks x) by (unfold member_toks; cbn [fst snd]; now rewrite Ek).
     destruct Hcase as [(-> & Hl2 & -> & Hii2) | (_ & Hl2 & Hj2 & Hii2)].
-    + rewrite Hl2, Hii2. auto.
-    + repeat split; auto. rewrite Hii2. unfold indents_after_item at 1. rewrite (ends_not_open _ Hlx), Hix, Hien.
+    + rewrite Hl2, Hii2. cbn [flat_map]. rewrite app_nil_r, Hmt. auto.
+    + split; auto. split. { cbn [flat_map]. rewrite Hmt. now rewrite app_assoc. }
+      rewrite Hii2. unfold indents_after_item at 1. rewrite (ends_not_open _ Hlx), Hix, Hien.
       rewrite Hiix'. destruct (e_indent e1); auto.
 Qed.
 
@@ -533,20 +606,20 @@ Lemma tree_ok_obj l : tree_ok (TObj l) -> Forall (fun kv => snd (append_string (
 Proof. induction l as [|x r IH]; cbn; intros H; constructor; tauto. Qed.
 
 Lemma emits_container (open_k close_k : ekind) (oc cc : byte) (body : list ecall) (copen cclose : ecall)
-      (jm : list byte -> Prop) (nonempty : bool) (cbody : list byte) :
+      (jm : list byte -> list atok -> Prop) (nonempty : bool) (cbody : list byte) (kbody : list atok) (ao ac : atok) :
   (forall e, enc_call rnd copen e = (emit [oc] (prepare_next rnd open_k e), true)) ->
   (forall e, enc_call rnd cclose e = (emit [cc] (prepare_next rnd close_k e), true)) ->
   starts_item open_k = true -> is_open open_k = true -> is_close close_k = true -> ends_value close_k = true ->
   plain [oc] -> plain [cc] ->
-  (forall w, ws w -> jvalue (oc :: w ++ [cc])) ->
-  (forall p, jm p -> jvalue (oc :: p ++ [cc])) ->
-  (forall p w, jm p -> ws w -> jm (p ++ w)) ->
+  (forall w, ws w -> svalue (oc :: w ++ [cc]) [ao; ac]) ->
+  (forall p ks, jm p ks -> svalue (oc :: p ++ [cc]) (ao :: ks ++ [ac])) ->
+  (forall p ks w, jm p ks -> ws w -> jm (p ++ w) ks) ->
   (forall e1 base, ws (e_indent e1) -> ws (e_indents e1) -> e_out e1 = base ++ [] -> e_last e1 = open_k ->
      exists e2 acc', enc_calls rnd body e1 = (e2, true) /\ e_out e2 = base ++ acc' /\
        e_indent e2 = e_indent e1 /\ ws (e_indents e2) /\ sq acc' cbody /\
-       ((nonempty = false /\ e_last e2 = e_last e1 /\ acc' = [] /\ e_indents e2 = e_indents e1) \/
-        (nonempty = true /\ ends_value (e_last e2) = true /\ jm acc' /\ e_indents e2 = indents_after_item e1))) ->
-  emits_value rnd (copen :: body ++ [cclose]) (oc :: cbody ++ [cc]).
+       ((nonempty = false /\ e_last e2 = e_last e1 /\ acc' = [] /\ kbody = [] /\ e_indents e2 = e_indents e1) \/
+        (nonempty = true /\ ends_value (e_last e2) = true /\ jm acc' kbody /\ e_indents e2 = indents_after_item e1))) ->
+  emits_value rnd (copen :: body ++ [cclose]) (oc :: cbody ++ [cc]) (ao :: kbody ++ [ac]).
 Proof.
   intros Hco Hcc Hso Hoo Hcl Hev Hpo Hpc Hempty Hfull Hjmws Hbody e Hi Hii.
   destruct (prepare_item rnd open_k e Hso Hi Hii) as (s & Hos & Hsep & Hls & Hins & Hiis & Hws).
@@ -569,7 +642,7 @@ Proof.
   subst e3. unfold emit. cbn [e_out e_last e_indent e_indents]. rewrite Hoc, Ho2, Hlc, Hic, Hi2, Hi0.
   split. { rewrite <- !app_assoc. reflexivity. }
   split; auto. split.
-  { destruct Hcase as [(_ & _ & -> & _) | (_ & _ & Hj & _)].
+  { destruct Hcase as [(_ & _ & -> & -> & _) | (_ & _ & Hj & _)].
     - cbn [app]. apply Hempty; auto.
     - rewrite app_assoc. apply Hfull. apply Hjmws; auto. }
   split.
@@ -578,59 +651,61 @@ Proof.
     apply sq_app; [now apply sq_plain|]. apply sq_app; auto.
     rewrite <- (app_nil_l [cc]) at 2. apply sq_app; [now apply sq_ws|now apply sq_plain]. }
   split; auto. split; auto. split; [|exact Hwc].
-  rewrite Hiic. destruct Hcase as [(_ & Hl2 & _ & Hii2) | (_ & Hl2 & _ & Hii2)].
+  rewrite Hiic. destruct Hcase as [(_ & Hl2 & _ & _ & Hii2) | (_ & Hl2 & _ & Hii2)].
   - apply (close_indents e0 e2 true); auto.
   - apply (close_indents e0 e2 false); auto.
 Qed.
 
-Theorem enc_tree_emits t : tree_ok t -> emits_value rnd (calls_of_tree t) (compact t).
+Theorem enc_tree_emits t : tree_ok t -> emits_value rnd (calls_of_tree t) (compact t) (tree_toks t).
 Proof.
-  induction t as [| b | s | z | n | l IH | l IH] using jtree_rect2; intros Hok; cbn [calls_of_tree compact].
+  induction t as [| b | s | z | n | l IH | l IH] using jtree_rect2; intros Hok; cbn [calls_of_tree compact tree_toks].
   - apply (emits_scalar rnd CNull lit_null); [reflexivity|constructor|apply sq_plain; reflexivity].
   - apply (emits_scalar rnd (CBool b) (if b then lit_true else lit_false));
       [reflexivity|destruct b; constructor|destruct b; apply sq_plain; reflexivity].
   - cbn [tree_ok] in Hok. destruct (append_string s) as [o ok] eqn:Es. cbn [snd] in Hok. subst ok. cbn [fst].
     apply (emits_scalar rnd (CString s) o).
     + intros e. cbn [enc_call]. rewrite Es. reflexivity.
-    + apply JStr. eapply append_string_rfc; eauto.
+    + apply SStr. eapply append_string_sstring; eauto.
     + eapply sq_append_string; eauto.
-  - apply (emits_scalar rnd (CInt z) (dec_int z)); [reflexivity|apply JNum, dec_int_rfc|apply sq_plain, plain_dec_int].
+  - apply (emits_scalar rnd (CInt z) (dec_int z)); [reflexivity|apply SNum, dec_int_rfc|apply sq_plain, plain_dec_int].
   - apply (emits_scalar rnd (CUint n) (dec_digits n)); [reflexivity| |apply sq_plain, plain_dec_digits].
-    apply JNum. apply (rfc_number_of_int [] (dec_digits n)); auto. apply dec_digits_rfc_int.
+    apply SNum. apply (rfc_number_of_int [] (dec_digits n)); auto. apply dec_digits_rfc_int.
   - (* array *)
     apply tree_ok_arr in Hok.
-    assert (HF : Forall (fun t => emits_value rnd (calls_of_tree t) (compact t)) l).
+    assert (HF : Forall (fun t => emits_value rnd (calls_of_tree t) (compact t) (tree_toks t)) l).
     { clear - IH Hok. induction l; constructor; inversion IH; inversion Hok; subst; auto. }
-    apply (emits_container EKArrOpen EKArrClose c_lbrack c_rbrack _ CStartArr CEndArr jelems
+    apply (emits_container EKArrOpen EKArrClose c_lbrack c_rbrack _ CStartArr CEndArr selems
              (match l with [] => false | _ => true end)); try reflexivity.
-    + intros w Hw. now apply JArrE.
-    + intros p Hp. now apply JArr.
-    + apply jelems_ws.
+    + intros w Hw. now apply SArrE.
+    + intros p ks Hp. now apply SArr.
+    + apply selems_ws.
     + intros e1 base Hi Hii Ho Hl1.
       assert (Hop : is_open (e_last e1) = true) by now rewrite Hl1.
-      destruct (enc_elems rnd l HF e1 base [] [] Hi Hii Ho sq_nil (or_introl (conj Hop eq_refl)))
+      destruct (enc_elems rnd l HF e1 base [] [] [] Hi Hii Ho sq_nil (or_introl (conj Hop (conj eq_refl eq_refl))))
         as (e2 & acc' & Erun & Ho2 & Hi2 & Hw2 & Hsq2 & Hcase).
       rewrite Hl1 in Hsq2. cbn [ends_value app] in Hsq2.
       exists e2, acc'. repeat split; auto; try apply Hsq2.
-      destruct Hcase as [(-> & H1 & H2 & H3) | (Hne & H1 & H2 & H3)]; [left | right]; auto.
-      destruct l; [contradiction|auto].
+      destruct Hcase as [(-> & H1 & H2 & H3) | (Hne & H1 & H2 & H3)].
+      * left. repeat split; auto.
+      * right. destruct l; [contradiction|]. repeat split; auto.
   - (* object *)
     apply tree_ok_obj in Hok.
-    assert (HF : Forall (fun kv => snd (append_string (fst kv)) = true /\ emits_value rnd (calls_of_tree (snd kv)) (compact (snd kv))) l).
+    assert (HF : Forall (fun kv => snd (append_string (fst kv)) = true /\ emits_value rnd (calls_of_tree (snd kv)) (compact (snd kv)) (tree_toks (snd kv))) l).
     { clear - IH Hok. induction l; constructor; inversion IH; inversion Hok; subst; try tauto; auto. }
-    apply (emits_container EKObjOpen EKObjClose c_lbrace c_rbrace _ CStartObj CEndObj jmembers
+    apply (emits_container EKObjOpen EKObjClose c_lbrace c_rbrace _ CStartObj CEndObj smembers
              (match l with [] => false | _ => true end)); try reflexivity.
-    + intros w Hw. now apply JObjE.
-    + intros p Hp. now apply JObj.
-    + apply jmembers_ws.
+    + intros w Hw. now apply SObjE.
+    + intros p ks Hp. now apply SObj.
+    + apply smembers_ws.
     + intros e1 base Hi Hii Ho Hl1.
       assert (Hop : is_open (e_last e1) = true) by now rewrite Hl1.
-      destruct (enc_members rnd l HF e1 base [] [] Hi Hii Ho sq_nil (or_introl (conj Hop eq_refl)))
+      destruct (enc_members rnd l HF e1 base [] [] [] Hi Hii Ho sq_nil (or_introl (conj Hop (conj eq_refl eq_refl))))
         as (e2 & acc' & Erun & Ho2 & Hi2 & Hw2 & Hsq2 & Hcase).
       rewrite Hl1 in Hsq2. cbn [ends_value app] in Hsq2.
       exists e2, acc'. repeat split; auto; try apply Hsq2.
-      destruct Hcase as [(-> & H1 & H2 & H3) | (Hne & H1 & H2 & H3)]; [left | right]; auto.
-      destruct l; [contradiction|auto].
+      destruct Hcase as [(-> & H1 & H2 & H3) | (Hne & H1 & H2 & H3)].
+      * left. repeat split; auto.
+      * right. destruct l; [contradiction|]. repeat split; auto.
 Qed.
 
 Lemma indent_ok_ws indent : indent_ok indent = true -> ws indent.
@@ -642,7 +717,7 @@ Qed.
 (* every tree the encoder accepts renders, with any indent of spaces/tabs and any detrand
    stream, a JSON text, which is the compact rendering up to insignificant whitespace *)
 Theorem render_spec indent t : indent_ok indent = true -> tree_ok t ->
-  exists out, render rnd indent t = (out, true) /\ json_text out /\ squeeze SqOut out = compact t.
+  exists out, render rnd indent t = (out, true) /\ stext out (tree_toks t) /\ squeeze SqOut out = compact t.
 Proof.
   intros Hind Hok. unfold render.
   destruct (enc_tree_emits t Hok (e_init indent) (indent_ok_ws _ Hind) ws_nil)
@@ -656,7 +731,29 @@ End EncMain.
 
 Theorem encoder_emits_json rnd indent t : indent_ok indent = true -> tree_ok t ->
   exists out, render rnd indent t = (out, true) /\ json_text out.
-Proof. intros H1 H2. destruct (render_spec rnd indent t H1 H2) as (out & H & Hj & _). eauto. Qed.
+Proof. intros H1 H2. destruct (render_spec rnd indent t H1 H2) as (out & H & Hj & _). eauto using stext_json_text. Qed.
+
+(* The Decoder reads every rendering back as the token sequence of the tree: rendering with any
+   indent / detrand stream parses to the same tokens (kinds, raw bytes, decoded strings). *)
+Theorem render_reads rnd indent t : indent_ok indent = true -> tree_ok t ->
+  exists out toks, render rnd indent t = (out, true) /\ read_all out = (toks, None) /\
+                   map atok_of toks = tree_toks t.
+Proof.
+  intros H1 H2. destruct (render_spec rnd indent t H1 H2) as (out & H & Hs & _).
+  destruct (lexer_accepts_all_strict_json out _ Hs) as (toks & Hr & Hm & _). eauto.
+Qed.
+
+Theorem indent_invariant_tokens rnd1 rnd2 indent1 indent2 t :
+  indent_ok indent1 = true -> indent_ok indent2 = true -> tree_ok t ->
+  snd (read_all (fst (render rnd1 indent1 t))) = None /\ snd (read_all (fst (render rnd2 indent2 t))) = None /\
+  map atok_of (fst (read_all (fst (render rnd1 indent1 t)))) = map atok_of (fst (read_all (fst (render rnd2 indent2 t)))) /\
+  map atok_of (fst (read_all (fst (render rnd1 indent1 t)))) = tree_toks t.
+Proof.
+  intros H1 H2 Hok.
+  destruct (render_reads rnd1 indent1 t H1 Hok) as (o1 & k1 & R1 & A1 & E1).
+  destruct (render_reads rnd2 indent2 t H2 Hok) as (o2 & k2 & R2 & A2 & E2).
+  rewrite R1, R2. cbn [fst]. rewrite A1, A2. cbn [fst snd]. repeat split; congruence.
+Qed.
 
 (* indent / detrand only change insignificant whitespace *)
 Theorem indent_invariant rnd1 rnd2 indent1 indent2 t :
